@@ -64,6 +64,15 @@ HASH_TWIN_SEEDS = [
     'd = {a: b}\nt = f"{a: b}"\n',
     "x = u'a'\ny = 'a'\nz = f'a'\nw = f'{x}' f\"{x!s}\"\n",
     "t = a[1, 2], (1, 2), a[1:2], a[(1, 2)]\n",
+    # one expression as a target and as a value, with inner Store contexts that stay Store when the whole is loaded
+    "scores[max(k for k in scores)] = scores[max(k for k in scores)] + 1\n",
+    "a[[i for i in b][0]] += 1\nprint(a[[i for i in b][0]])\n",
+    "a[(n := 1)] = a[(n := 1)]\n",
+    "del d[{k: v for k, v in e}[0]]\nx = d[{k: v for k, v in e}[0]]\n",
+    "for a[i] in a[i]:\n    pass\n",
+    "with f() as x[[j for j in y][0]]:\n    z = x[[j for j in y][0]]\n",
+    "x[lambda: [q for q in r]] = x[lambda: [q for q in r]]\n",
+    "o(len({w for w in v})).attr = o(len({w for w in v})).attr\n",
 ]
 
 WIDE_SEEDS = MULTILINE_SEEDS + HASH_TWIN_SEEDS + [
